@@ -73,10 +73,6 @@ pub fn usable_isas(rep: &mut Report) -> Vec<(IsaKind, &'static str)> {
     out
 }
 
-pub fn isa_by_name(name: &str) -> Option<IsaKind> {
-    ALL_ISAS.iter().find(|(_, n)| *n == name).map(|(k, _)| *k)
-}
-
 pub const QNAN: u32 = 0x7fc0_0000;
 
 /// Canonical text of a float for signatures: shortest round-trip decimal,
